@@ -344,7 +344,8 @@ type outcome struct {
 	stateMoved bool // static mode only: state differs from before (informational before Byzantium rules)
 }
 
-const nestedObsPerCase = 48
+// nestedObsPerCase: how many call sites per execution get a before/after state observation (12 quick, 48 thorough).
+var nestedObsPerCase = 12
 
 func execute(w *world, c Case) (out outcome) {
 	clearEmpty := c.Ep.ByzRules
